@@ -26,7 +26,13 @@ structure Good (x : Ctx) (r q : Bool) : Prop where
   freed_ : x.mem = .freed → x.ref = (if x.regFailed then 1 else 0) ∧ x.held = 0 ∧ r = false ∧ q = false ∧ x.fdOpen = false ∧ x.nFdc = 1 ∧
             x.nFree = 1 ∧ x.nRel = (if x.regFailed then 0 else 1)
   once : x.nConn ≤ 1 ∧ x.nAdd ≤ 1 ∧ x.nCls ≤ 1
-  clsReg : x.nCls = 1 → r = false ∧ q = false
+  clsReg : x.nCls = 1 → (r = false ∨ x.closing = true) ∧ q = false
+  /-- while the loop is inside `cb_close` the context is still registered, i.e. the loop's own
+  reference is still counted -/
+  cl : x.closing = true → r = true ∧ x.mem = .live ∧ x.nCls = 1
+  /-- the reference count the user callbacks saw -/
+  obs : (x.nCls = 1 → 1 ≤ x.oCls) ∧ (x.nConn = 1 → x.oConn = 1) ∧ (x.nAdd = 1 → 1 ≤ x.oAdd) ∧
+          (x.nRel = 1 → x.oRel = 0)
   bytes : x.got ++ x.inq = x.sent
   rf : x.regFailed = true → x.nCls = 0 ∧ x.nConn = 0
   oAcc : x.origin = .accepted → x.nAdd = 0 ∧ q = false ∧
@@ -51,7 +57,7 @@ structure Inv (s : St) : Prop where
 /-! ## record level -/
 
 theorem relRec_one {x : Ctx} (h : x.ref = 1) : relRec x =
-    { x with ref := 0, nRel := x.nRel + 1, flagClosed := true, fdOpen := false,
+    { x with ref := 0, nRel := x.nRel + 1, oRel := 0, flagClosed := true, fdOpen := false,
              nFdc := if x.fdOpen then x.nFdc + 1 else x.nFdc, mem := .freed, nFree := x.nFree + 1 } := by
   simp [relRec, h]
 
@@ -61,8 +67,9 @@ theorem relRec_many {x : Ctx} (h : 2 ≤ x.ref) : relRec x = { x with ref := x.r
   simp [relRec, h0, h1]
 
 theorem good_release {x : Ctx} {r q : Bool} (h : Good x r q) (hl : x.mem = .live)
-    (hrq : (r = true ∧ q = false) ∨ (r = false ∧ q = true)) : Good (relRec x) false false := by
-  obtain ⟨h1, h2, h3, h4, h5, h6, h7, h8, h9, h10, h11⟩ := h
+    (hrq : (r = true ∧ q = false) ∨ (r = false ∧ q = true)) (hc : x.closing = false) :
+    Good (relRec x) false false := by
+  obtain ⟨h1, h2, h3, h4, h5, h5a, h5b, h6, h7, h8, h9, h10, h11⟩ := h
   have := h2 hl
   have hr : x.ref = 1 ∨ 2 ≤ x.ref := by omega
   rcases hr with hr | hr
@@ -71,20 +78,40 @@ theorem good_release {x : Ctx} {r q : Bool} (h : Good x r q) (hl : x.mem = .live
   · rw [relRec_many hr]
     constructor <;> (simp only [b2n] at *) <;> grind
 
-theorem good_close {x : Ctx} (h : Good x true false) (hl : x.mem = .live) :
-    Good (relRec { x with nCls := x.nCls + 1 }) false false := by
-  obtain ⟨h1, h2, h3, h4, h5, h6, h7, h8, h9, h10, h11⟩ := h
+theorem good_close {x : Ctx} (h : Good x true false) (hl : x.mem = .live) (hc : x.closing = false) :
+    Good (relRec { x with nCls := x.nCls + 1, oCls := x.ref }) false false := by
+  obtain ⟨h1, h2, h3, h4, h5, h5a, h5b, h6, h7, h8, h9, h10, h11⟩ := h
   have := h2 hl
   have hr : x.ref = 1 ∨ 2 ≤ x.ref := by omega
   rcases hr with hr | hr
-  · rw [relRec_one (x := { x with nCls := x.nCls + 1 }) hr]
+  · rw [relRec_one (x := { x with nCls := x.nCls + 1, oCls := x.ref }) hr]
     constructor <;> (simp only [b2n] at *) <;> grind
-  · rw [relRec_many (x := { x with nCls := x.nCls + 1 }) hr]
+  · rw [relRec_many (x := { x with nCls := x.nCls + 1, oCls := x.ref }) hr]
+    constructor <;> (simp only [b2n] at *) <;> grind
+
+/-- the loop enters the user's `cb_close` -/
+theorem good_closeBegin {x : Ctx} (h : Good x true false) (hl : x.mem = .live) (hc : x.closing = false) :
+    Good { x with nCls := x.nCls + 1, oCls := x.ref, closing := true } true false := by
+  obtain ⟨h1, h2, h3, h4, h5, h5a, h5b, h6, h7, h8, h9, h10, h11⟩ := h
+  have := h2 hl
+  constructor <;> (simp only [b2n] at *) <;> grind
+
+/-- `cb_close` has returned: the loop drops its reference -/
+theorem good_closeEnd {x : Ctx} (h : Good x true false) (hl : x.mem = .live) (hc : x.closing = true) :
+    Good (relRec { x with closing := false }) false false := by
+  obtain ⟨h1, h2, h3, h4, h5, h5a, h5b, h6, h7, h8, h9, h10, h11⟩ := h
+  have := h2 hl
+  have := h5a hc
+  have hr : x.ref = 1 ∨ 2 ≤ x.ref := by omega
+  rcases hr with hr | hr
+  · rw [relRec_one (x := { x with closing := false }) hr]
+    constructor <;> (simp only [b2n] at *) <;> grind
+  · rw [relRec_many (x := { x with closing := false }) hr]
     constructor <;> (simp only [b2n] at *) <;> grind
 
 theorem good_wrel {x : Ctx} {r q : Bool} (h : Good x r q) (hl : x.mem = .live) (hh : 0 < x.held) :
     Good (wrelRec x) r q := by
-  obtain ⟨h1, h2, h3, h4, h5, h6, h7, h8, h9, h10, h11⟩ := h
+  obtain ⟨h1, h2, h3, h4, h5, h5a, h5b, h6, h7, h8, h9, h10, h11⟩ := h
   have := h2 hl
   have hr : x.ref = 1 ∨ 2 ≤ x.ref := by omega
   unfold wrelRec
@@ -96,36 +123,41 @@ theorem good_wrel {x : Ctx} {r q : Bool} (h : Good x r q) (hl : x.mem = .live) (
 
 theorem good_retain {x : Ctx} {r q : Bool} (h : Good x r q) (hl : x.mem = .live) :
     Good { x with ref := x.ref + 1, held := x.held + 1 } r q := by
-  obtain ⟨h1, h2, h3, h4, h5, h6, h7, h8, h9, h10, h11⟩ := h
+  obtain ⟨h1, h2, h3, h4, h5, h5a, h5b, h6, h7, h8, h9, h10, h11⟩ := h
   have := h2 hl
   constructor <;> (simp only [b2n] at *) <;> grind
 
 theorem good_shutdown {x : Ctx} {r q : Bool} (h : Good x r q) :
     Good { x with flagClosed := true, eof := true } r q := by
-  obtain ⟨h1, h2, h3, h4, h5, h6, h7, h8, h9, h10, h11⟩ := h
+  obtain ⟨h1, h2, h3, h4, h5, h5a, h5b, h6, h7, h8, h9, h10, h11⟩ := h
   constructor <;> grind
 
 theorem good_read {x : Ctx} {r q : Bool} (h : Good x r q) (k : Nat) : Good (readRec x k) r q := by
-  obtain ⟨h1, h2, h3, h4, h5, h6, h7, h8, h9, h10, h11⟩ := h
+  obtain ⟨h1, h2, h3, h4, h5, h5a, h5b, h6, h7, h8, h9, h10, h11⟩ := h
   have hb := drain_append k x.inq.length x.inq x.got
   unfold readRec
   constructor <;> (try simp only []) <;> (try grind)
 
 theorem good_eof {x : Ctx} {r q : Bool} (h : Good x r q) : Good { x with eof := true } r q := by
-  obtain ⟨h1, h2, h3, h4, h5, h6, h7, h8, h9, h10, h11⟩ := h
+  obtain ⟨h1, h2, h3, h4, h5, h5a, h5b, h6, h7, h8, h9, h10, h11⟩ := h
   constructor <;> grind
 
 theorem good_send {x : Ctx} {r q : Bool} (h : Good x r q) (b : List Nat) :
     Good { x with inq := x.inq ++ b, sent := x.sent ++ b } r q := by
-  obtain ⟨h1, h2, h3, h4, h5, h6, h7, h8, h9, h10, h11⟩ := h
+  obtain ⟨h1, h2, h3, h4, h5, h5a, h5b, h6, h7, h8, h9, h10, h11⟩ := h
   constructor <;> grind
 
 /-- the loop takes a queued context into the registration list and announces it -/
 theorem good_add {x : Ctx} (h : Good x false true) (hl : x.mem = .live) :
-    Good { x with nAdd := x.nAdd + 1 } true false := by
-  obtain ⟨h1, h2, h3, h4, h5, h6, h7, h8, h9, h10, h11⟩ := h
+    Good { x with nAdd := x.nAdd + 1, oAdd := x.ref } true false := by
+  obtain ⟨h1, h2, h3, h4, h5, h5a, h5b, h6, h7, h8, h9, h10, h11⟩ := h
   have := h2 hl
   cases ho : x.origin <;> simp only [ho] at * <;>
   (constructor <;> (simp only [b2n] at *) <;> grind)
+
+theorem not_closing_of_not_reg {x : Ctx} {q : Bool} (h : Good x false q) : x.closing = false := by
+  cases hc : x.closing
+  · rfl
+  · have := (h.cl hc).1; cases this
 
 end MgProof.C15
